@@ -203,6 +203,15 @@ def check_case(case) -> Result:
     a2 = [(f.ion_type, f.start, f.end, f.charge, f.isotope, f.loss, f.mass, f.mz, f.sequence) for f in frags]
     if a1 != a2:
         r.fail('the cached Fragmenter gives the same list', 'C04/fragmenter-differs', n_fragment=len(a2), n_fragmenter=len(a1), **ctx)
+    # the same projection with every optional argument left at its default (isotope 0, no losses, monoisotopic, no precision)
+    key = lambda f: (f.ion_type, f.start, f.end, f.charge, f.isotope, f.loss, round(f.mass, 6), f.sequence)  # noqa
+    d1 = [key(f) for f in pt.fragment(s, list(ions), list(charges))]
+    d2 = [key(f) for f in pt.Fragmenter(s).fragment(list(ions), list(charges))]
+    d3 = [key(f) for f in pt.fragment(s, list(ions), list(charges), monoisotopic=True, isotopes=[0], water_loss=False, ammonia_loss=False,
+                                      losses=None, precision=None)]
+    if d1 != d3 or d2 != d3:
+        r.fail('the cached Fragmenter gives the same list', 'C04/defaults-differ-between-fragment-and-Fragmenter', n_fragment=len(d1),
+               n_fragmenter=len(d2), n_explicit=len(d3), sequence=s, ions=list(ions), charges=list(charges))
     return r
 
 
